@@ -15,7 +15,8 @@ Enters(acts) == SelectSeq(acts, LAMBDA a : a.a = "enter")
 Verdict(r) ==
   LET m == Start(r.tree, <<>>, <<>>)
       me == Enters(m.st.acts) IN
-  IF \E j \in 1..Len(r.log) : r.log[j].v # LexMode(r.tree, r.log[j].p, "AUTO") THEN "probe-mode"
+  IF (m.out = "ok") # (r.out = "ok") THEN "outcome"
+  ELSE IF \E j \in 1..Len(r.log) : r.log[j].v # LexMode(r.tree, r.log[j].p, "AUTO") THEN "probe-mode"
   ELSE IF \E j \in 1..Len(r.enters) : r.enters[j].mode # LexMode(r.tree, r.enters[j].path, "AUTO") THEN "enter-mode"
   ELSE IF Len(r.log) # Len(m.st.log) \/ \E j \in 1..Len(r.log) : r.log[j].p # m.st.log[j].p THEN "probes-run"
   ELSE IF Len(me) # Len(r.enters) THEN "drift-frames"
